@@ -64,7 +64,9 @@ def run(prop, tier, seed):
         behs = sorted(behs, key=chk.summarize)
         rng.shuffle(behs)
         rp = replay.Replayer(mode="jit")
-        for b in behs[:n_jit]:
+        n_jit_i = inst.get("n_jit", n_jit)
+        n_prog_i = inst.get("n_prog", n_prog)
+        for b in behs[:n_jit_i]:
             nt, key = chk.nontrivial_key(b)
             if nt:
                 nontrivial.add(key)
@@ -80,7 +82,7 @@ def run(prop, tier, seed):
             counters[k] = counters.get(k, 0) + v
         if behs:
             samples.append({"instance": inst["cfg"], "mode": "jit-step", "behaviour": chk.summarize(behs[0])})
-        for b in behs[n_jit:n_jit + n_prog]:
+        for b in behs[n_jit_i:n_jit_i + n_prog_i]:
             ctx = {"act": "Program", "cfg": inst["cfg"]}
             try:
                 if inst.get("kalman"):
